@@ -248,6 +248,11 @@ class FloatTag(Fraction):
   Only isinstance(v, float/int) tests observe the difference."""
 
 
+class NArr(list):
+  """A concrete numpy / tensorflow array of numbers (np.asarray, tf.range,
+  tf.concat of such): arithmetic and comparisons are element-wise."""
+
+
 def is_floaty(v):
   return isinstance(v, FloatTag)
 
@@ -852,6 +857,14 @@ class PE(object):
     return result
 
   def compare(self, op, a, b, node=None):
+    if (isinstance(a, NArr) or isinstance(b, NArr)) and isinstance(
+        op, (ast.Lt, ast.LtE, ast.Gt, ast.GtE, ast.Eq, ast.NotEq)):
+      if isinstance(a, NArr) and isinstance(b, NArr) and len(a) == len(b):
+        return NArr(self.compare(op, x, y, node) for x, y in zip(a, b))
+      if isinstance(a, NArr) and (is_num(b) or isinstance(b, bool)):
+        return NArr(self.compare(op, x, b, node) for x in a)
+      if isinstance(b, NArr) and (is_num(a) or isinstance(a, bool)):
+        return NArr(self.compare(op, a, y, node) for y in b)
     if isinstance(a, list) and not isinstance(b, (list, tuple, str)) and \
         b is not None and any(isinstance(e, Tensor) for e in a) and \
         isinstance(op, (ast.Lt, ast.LtE, ast.Gt, ast.GtE)):
@@ -997,6 +1010,20 @@ class PE(object):
       else:
         self.err("tensor binary op %s" % type(op).__name__)
       return Tensor(self.note_loc(t), sh)
+    if isinstance(a, NArr) or isinstance(b, NArr):
+      if isinstance(a, NArr) and isinstance(b, NArr):
+        if len(a) != len(b):
+          if len(a) == 1:
+            a = NArr(list(a) * len(b))
+          elif len(b) == 1:
+            b = NArr(list(b) * len(a))
+          else:
+            raise PyRaise("ValueError", "operands could not be broadcast")
+        return NArr(self.binop(op, x, y) for x, y in zip(a, b))
+      if isinstance(a, NArr) and (is_num(b) or isinstance(b, bool)):
+        return NArr(self.binop(op, x, b) for x in a)
+      if isinstance(b, NArr) and (is_num(a) or isinstance(a, bool)):
+        return NArr(self.binop(op, a, y) for y in b)
     # python values
     if isinstance(op, ast.Add):
       if isinstance(a, str) and isinstance(b, str):
